@@ -5,13 +5,20 @@ import json
 import math
 
 from . import c08_lib as L
+from . import modelproc
+from .sx import Sym, d_float, d_str, e_float
 
 RULE = ('operation histories over 1-4 simulated worker processes (values.MultiProcessValue(lambda: pid), numeric pids with shared '
         'decimal prefixes 1/11/12/2), counters, summaries, histograms (two bucket layouts per name) and 2-4 gauges drawn from '
         'the 10 multiprocess modes, numeric and NON-numeric process identifiers (hex ids ending in b/d, ids with dots), labelled and unlabelled, children created in some workers only, exact dyadic amounts with '
         'ties/negatives/-0.0 plus a NaN/Inf stream, scripted set-times with ties, mark_process_dead and pid reuse at arbitrary '
         'points (also striking in the MIDDLE of a scrape: after the collector listed the directory, before it read the files), Gauge.set_to_current_time, falsy identities 0 and empty string, collect() and merge(permuted file list) at arbitrary points; non-trivial = at least two pids wrote files and '
-        'at least one collection saw a gauge or histogram series; distinct by history')
+        'at least one collection saw a gauge or histogram series; distinct by history; '
+        'a fifth of the random histories are MULTI-HISTORY cases: every worker constructs the whole catalog (one declaration per '
+        'name) when it starts, and the complete history - starts, calls, mark_process_dead, pid reuse - is replayed through the '
+        'extracted multi-process model (model/MultiHist.v, command c08h_run): the model directory is compared file by file, '
+        'entry by entry, with the real directory at every collection point, call outcomes are compared, and the final collect of '
+        'the model directory with the real collector')
 TRUSTED = ['float + < == of the platform (IEEE binary64; OCaml floats in the driver, CPython floats in the implementation)',
            'hypotheses of C08_min_is_least / C08_max_is_greatest / C08_min_max_order_independent / C08_histogram_bounds_sorted: '
            'float < is irreflexive and transitive; for non-NaN c, a<b implies a<c or c<b; for non-NaN a,b neither a<b nor b<a implies a==b',
@@ -20,7 +27,11 @@ TRUSTED = ['float + < == of the platform (IEEE binary64; OCaml floats in the dri
            'float(str) on an `le` label and utils.floatToGoString: tables answered by CPython per case (C13 covers floatToGoString)',
            'JSON key codec json.dumps(sort_keys=True)/json.loads: the harness decodes keys, the model works on the decoded structure',
            'MmapedDict.read_all_values_from_file returns the stored (key, value, timestamp) entries in file order (C10)',
-           'the read order of the files is observed (the store reader the collector calls is wrapped and logs the names), not assumed from glob']
+           'the read order of the files is observed (the store reader the collector calls is wrapped and logs the names), not assumed from glob',
+           'props/C08h.v (worker histories): Section hypotheses FLT_ne (a < b implies b != a; used as 0.0 < t implies t != 0.0), '
+           'FLT_trans and FL4 (integer-valued doubles below 2^53 add exactly) for the histogram bucket theorem only; bounds_not_nan; '
+           'the theorems read the files in the model directory order (creation order), the real order is whatever glob returns: '
+           'the multi-history stream therefore compares DIRECTORIES exactly and collections up to the summation order tolerance']
 ASSUMPTIONS = ['one multiprocess mode, one type and one help text per metric name across workers (the registry/metric API guarantees '
                'nothing else is meaningful); no user label named pid or le',
                'a worker marked dead issues no further operations (its pid may be reused by a new worker)',
@@ -157,12 +168,189 @@ def cases(ctx):
     # every gauge mode gets focused histories with 2-4 workers
     for rep in range(ctx.n(3, 40)):
         for mode in L.MODES:
-            yield gen_case(rng, nworkers=rng.randrange(2, 5), focus=mode)
+            c = gen_case(rng, nworkers=rng.randrange(2, 5), focus=mode)
+            yield to_multi(c) if rep == 1 else c
     for _ in range(ctx.n(10 ** 6, 10 ** 7)):        # until the time budget
         if ctx.thorough and rng.random() < 0.25:
             yield real_case(rng)
             continue
-        yield gen_case(rng, wild=rng.random() < 0.25, focus=rng.choice(L.MODES) if rng.random() < 0.3 else None)
+        c = gen_case(rng, wild=rng.random() < 0.25, focus=rng.choice(L.MODES) if rng.random() < 0.3 else None)
+        yield to_multi(c) if rng.random() < 0.2 else c
+
+
+# ---------------- multi-history cases: the whole history through the extracted multi-process model ----------------
+def to_multi(case):
+    """the same history with every worker constructing the whole catalog (one declaration per name) right after it starts"""
+    cat, byname, idmap = [], {}, {}
+    for d in case['metrics']:
+        if d['name'] in byname:
+            idmap[d['id']] = byname[d['name']]
+            continue
+        nd = dict(d, id=len(cat))
+        byname[d['name']] = nd['id']
+        idmap[d['id']] = nd['id']
+        cat.append(nd)
+    ops = []
+    for op in case['ops']:
+        k = op[0]
+        if k == 'spawn':
+            ops.append(op)
+            ops += [['new', op[1], d['id']] for d in cat]
+        elif k == 'new':
+            continue
+        elif k == 'collect_vanish':
+            ops += [['dead', op[1]], ['collect']]
+        elif k == 'merge':
+            ops.append(['collect'])
+        elif k in ('collect', 'dead'):
+            ops.append(op)
+        else:
+            ops.append([k, op[1], idmap[op[2]]] + list(op[3:]))
+    return {'metrics': cat, 'ops': ops, 'multi': True}
+
+
+def _multi_ok(case):
+    """every spawn is followed by the construction of the whole catalog in order, and nothing else constructs"""
+    n = len(case['metrics'])
+    ops = case['ops']
+    i = 0
+    while i < len(ops):
+        if ops[i][0] == 'spawn':
+            blk = ops[i + 1:i + 1 + n]
+            if [o[:1] + o[2:] for o in blk] != [['new', j] for j in range(n)] or any(o[1] != ops[i][1] for o in blk):
+                return False
+            i += 1 + n
+        elif ops[i][0] == 'new':
+            return False
+        else:
+            i += 1
+    return True
+
+
+_eq = [None]
+
+
+def eq_model():
+    """the driver that holds the composition models (group eq: Metrics + Values + Multiproc + Equiv + MultiHist)"""
+    m = _eq[0]
+    if m is None or m.p.poll() is not None or m.calls > 3000:
+        if m is not None:
+            m.close()
+        m = _eq[0] = modelproc.Model(prop='C12')
+    return m
+
+
+def _bounds(d):
+    bs = [float(b) for b in d['buckets']]
+    if bs[-1] != math.inf:
+        bs.append(math.inf)
+    return bs
+
+
+def _fbits(x):
+    x = float(x)
+    return 'nan' if math.isnan(x) else x.hex()
+
+
+def multi_replay(case, obs):
+    """-> None, or a description of the first difference between the real run and the extracted multi-process model"""
+    from prometheus_client.utils import floatToGoString
+    case = dict(case, ops=[norm_op(op) for op in case['ops']])
+    cat = case['metrics']
+    fams = [(Sym(d['kind']), d['name'], list(d['labelnames']),
+             [e_float(float(b)) for b in d['buckets']] if d['kind'] == 'histogram' else [], []) for d in cat]
+    metas = [[d['mode'] if d['kind'] == 'gauge' else '', d['help']] for d in cat]
+    ftab = {}
+    for d in cat:
+        if d['kind'] == 'histogram':
+            for b in _bounds(d):
+                ftab[e_float(b)] = floatToGoString(b)
+    steps, kinds, pid = [], [], {}
+    for op in case['ops']:
+        k = op[0]
+        if k == 'spawn':
+            pid[op[1]] = str(op[2])
+            steps.append((Sym('start'), str(op[2])))
+            kinds.append('start')
+        elif k == 'new':
+            kinds.append(None)
+        elif k == 'dead':
+            steps.append((Sym('dead'), str(op[1])))
+            kinds.append('dead')
+        elif k == 'collect':
+            steps.append(Sym('mark'))
+            kinds.append('mark')
+        else:
+            d = cat[op[2]]
+            addr = (Sym('L'), [str(v) for v in op[3]], []) if d['labelnames'] else Sym('P')
+            if k == 'child':
+                call = (Sym('labels'), op[2], addr)
+            else:
+                mop = {'inc': 'inc', 'dec': 'dec', 'set': 'set', 'obs': 'obs'}[k]
+                call = (Sym('upd'), op[2], addr, (Sym(mop), (Sym('f'), e_float(float(op[4])))))
+            now = float(op[5]) if k == 'set' else 1000.0
+            steps.append((Sym('call'), pid[op[1]], e_float(now), call))
+            kinds.append('call')
+    outs, dirs = eq_model().call('c08h_run', fams, metas, [[b, t] for b, t in ftab.items()], steps)
+    oi = di = 0
+    last_dir = None
+    for i, (kd, o) in enumerate(zip(kinds, obs)):
+        if kd in ('start', 'dead'):
+            oi += 1
+        elif kd == 'call':
+            mo = outs[oi]
+            oi += 1
+            if ('exc' in o) != (mo != 'ok'):
+                return 'op %d %r: the real call %s, the model call gives %r' % (
+                    i, case['ops'][i], 'raised ' + o['exc'] if 'exc' in o else 'returned', mo)
+        elif kd == 'mark':
+            md = {}
+            for t, mdn, p, c in dirs[di]:
+                t, mdn, p = d_str(t), d_str(mdn), d_str(p)
+                base = (t + '_' + mdn if t == 'gauge' else t) + '_' + p + '.db'
+                md[base] = [[L.d_key(kk), _fbits(d_float(v)), _fbits(d_float(ts))] for kk, v, ts in c]
+            di += 1
+            rd = {base: [[L.decode_key(kj), _fbits(v), _fbits(ts)] for kj, v, ts in entries] for base, entries in o['files']}
+            if sorted(md) != sorted(rd):
+                return 'collect at op %d: the directory holds %r, the model directory %r' % (i, sorted(rd), sorted(md))
+            for base in rd:
+                if rd[base] != md[base]:
+                    return 'collect at op %d: file %s holds %r, the model file %r' % (i, base, rd[base], md[base])
+            last_dir = (o, dirs[di - 1])
+    if last_dir is not None:
+        # the collector of the model over the model directory, files in the order the real collector read them
+        o, mdir = last_dir
+        by = {}
+        for t, mdn, p, c in mdir:
+            t, mdn, p = d_str(t), d_str(mdn), d_str(p)
+            by[(t + '_' + mdn if t == 'gauge' else t) + '_' + p + '.db'] = c
+        ptab, ftab2 = L.le_tables(o['files'])
+        sfiles = [[base, [[kk, v, ts] for kk, v, ts in by[base]]] for base, _e in o['files']]
+        rep = eq_model().call('c08_merge', ptab, ftab2, _raw_files(sfiles))
+        mf = [[d_str(n), d_str(t), d_str(h), [[d_str(sn), [(d_str(a), d_str(b)) for a, b in ls], d_float(v)] for sn, ls, v in ss]]
+              for n, h, t, ss in rep]
+        amb = L.ambiguous_mostrecent(o['files'])
+        a = L.drop_ambiguous(L.canon_fams(o['fams']), amb)
+        b = L.drop_ambiguous(L.canon_fams(mf), amb)
+        if not fams_close(a, b):
+            return 'final collect: the collector reports %r, the model collector over the model directory %r' % (a, b)
+    return None
+
+
+class _Raw(str):
+    """an S-expression that is already encoded (a reply of the driver sent back verbatim)"""
+
+
+def _raw_files(sfiles):
+    """model directory entries come back as parsed atoms; re-encode them for c08_merge"""
+    out = []
+    for base, entries in sfiles:
+        es = []
+        for kk, v, ts in entries:
+            k = L.d_key(kk)
+            es.append([L.sx_key(k), e_float(d_float(v)), e_float(d_float(ts))])
+        out.append([base, es])
+    return out
 
 
 def real_case(rng):
@@ -236,12 +424,18 @@ def model(m, case):
             out.append(sorted(L.d_str(x) for x in m.call('c08_mark_dead', str(op[1]), o['before'])))
         else:
             out.append(None)
+    if case.get('multi'):
+        out.append({'multi': multi_replay(case, obs)})
     return out
 
 
 def same(iobs, mobs):
     if isinstance(iobs, dict) or mobs == ['no-observation']:
         return False
+    if mobs and isinstance(mobs[-1], dict) and 'multi' in mobs[-1]:
+        if mobs[-1]['multi'] is not None:
+            return False
+        mobs = mobs[:-1]
     if len(iobs) != len(mobs):
         return False
     for o, mo in zip(iobs, mobs):
@@ -498,6 +692,8 @@ def classify(case, obs):
     if case.get('real'):
         return ['real_process_case'] + classify(resolve(case, obs), obs)
     ks = ['workers=%d' % sum(1 for op in case['ops'] if op[0] == 'spawn')]
+    if case.get('multi'):
+        ks.append('multi_history_case')
     if isinstance(obs, dict):
         return ks + ['harness_error']
     ks.append('ops<=15' if len(case['ops']) <= 15 else 'ops<=30' if len(case['ops']) <= 30 else 'ops>30')
@@ -556,11 +752,13 @@ def shrinks(case):
             continue
         for i in range(0, n, size):
             c = dict(case, ops=ops[:i] + ops[i + size:])
-            if c['ops'] and _valid(c):
+            if c['ops'] and _valid(c) and (not case.get('multi') or _multi_ok(c)):
                 yield c
 
 
 def neighbours(case):
     ops = case['ops']
     for i in range(len(ops) + 1):
-        yield dict(case, ops=ops[:i] + [['collect']] + ops[i:])
+        c = dict(case, ops=ops[:i] + [['collect']] + ops[i:])
+        if not case.get('multi') or _multi_ok(c):
+            yield c
